@@ -132,6 +132,26 @@ func opGroupAndMeta(r *rand.Rand, scenarios int) {
 				}
 			}
 		}
+		if r.Intn(2) == 0 { // one topic whose committed partitions mostly fail: several per-partition errors in one answer
+			n := known[r.Intn(len(known))]
+			for p := range c.Committed[group][n] {
+				if r.Intn(3) != 0 {
+					if c.CommitErr[n] == nil {
+						c.CommitErr[n] = map[int32]int16{}
+					}
+					c.CommitErr[n][p] = int16([]int{9, 14, 28}[r.Intn(3)])
+				}
+			}
+		}
+		if r.Intn(2) == 0 { // every API version: each broker advertises its own upper bound for the group / metadata APIs
+			for _, id := range ids {
+				c.Brokers[id].Versions = map[protocol.ApiKey]fakecluster.VRange{
+					protocol.OffsetFetch:  {Min: 0, Max: int16(r.Intn(7))},
+					protocol.OffsetCommit: {Min: 0, Max: int16(r.Intn(9))},
+					protocol.Metadata:     {Min: 0, Max: int16(1 + r.Intn(9))},
+				}
+			}
+		}
 		tr := &kafka.Transport{Dial: c.Dial, MetadataTTL: 5 * time.Second}
 		cl := &kafka.Client{Addr: kafka.TCP(c.Brokers[boot].Addr()), Transport: tr, Timeout: 5 * time.Second}
 		encState := func() string {
@@ -193,8 +213,15 @@ func opGroupAndMeta(r *rand.Rand, scenarios int) {
 				}
 			}
 			{
+				mark := c.Mark()
 				res, err := cl.OffsetFetch(context.Background(), req)
-				op := fmt.Sprintf("ofetch %s %s", st, form)
+				ver := int16(-1) // the version the coordinator received: a top-level error code exists from v2 on
+				for _, e := range c.Since(mark) {
+					if e.ApiKey == protocol.OffsetFetch {
+						ver = e.Version
+					}
+				}
+				op := fmt.Sprintf("ofetch %s %s v=%d", st, form, ver)
 				if err != nil {
 					emit(op, "err")
 				} else {
